@@ -225,7 +225,7 @@ def contexts_for(ctype: str, flavor: str):
     if TYPES[ctype].get("http2") and TYPES[ctype]["scheme"] == "https":
         # several requests assigned to ONE connection while it is still being established (slow connect / TLS)
         # ("two-cos-...": two companions wait for the single stream slot a fresh HTTP/2 connection has)
-        out += ["co-joins-connecting", "victim-joins-connecting", "two-cos-join-connecting"]
+        out += ["co-joins-connecting", "victim-joins-connecting", "two-cos-join-connecting", "co-joins-connecting-yielding-trace"]
     return out
 
 
@@ -245,6 +245,11 @@ async def run_injected(flavor: str, ctype: str, shape: str, context: str, inject
         # victim's stream slot - while the victim can be cancelled inside its awaiting trace callback)
         sc.trace_yields = True
         context = "queued-behind-same"
+    elif context == "co-joins-connecting-yielding-trace":
+        # (the companion is admitted to the connection while the victim still establishes and initialises it; the victim
+        # can be cancelled inside its awaiting trace callback between any two of those steps)
+        sc.trace_yields = True
+        context = "co-joins-connecting"
     elif context == "shared-h2-yielding-trace":
         # the victim's trace callback awaits: every trace boundary is a suspension point at which it can be cancelled,
         # while a companion's stream keeps the connection busy (nothing rescues a half-closed stream there)
